@@ -417,6 +417,8 @@ Proof.
   rewrite Hc. simpl. rewrite IH. simpl. eauto.
 Qed.
 
+Local Arguments table_boxes_children : simpl never.
+
 Theorem atb_total : forall b, tree iok b = true -> exists b', anonymous_table_boxes b = Ok b'.
 Proof.
   induction b as [t a m l IH] using box_ind'. intros Ht.
@@ -426,7 +428,7 @@ Proof.
   destruct (parent_t (ty (Box t a m l))) eqn:Epar; simpl negb; cbv iota; [|eauto].
   destruct (atb_list_total l) as [children Hc].
   { rewrite Forall_forall in *. intros c Hin. apply IH; auto. }
-  simpl ch. rewrite Hc. simpl.
+  simpl ch. rewrite Hc. cbn [bind].
   change tbc_fuel with (S (S (S (S (S 3))))).
   apply tbc_total.
   - unfold iok in Hi. unfold shell. bsplit. brw. reflexivity.
